@@ -13,8 +13,7 @@ pub fn pick(table: &'static [&'static str]) -> &'static str {
 /// One-byte string over {a, b}: fresh buffer, concrete pointer and length, symbolic content
 /// (much cheaper for the SAT back end than a symbolic pointer or length).
 pub fn s1() -> &'static str {
-    let b: u8 = nd::any();
-    nd::assume(b == b'a' || b == b'b');
+    let b: u8 = if nd::any::<bool>() { b'a' } else { b'b' };
     let buf: &'static [u8; 1] = Box::leak(Box::new([b]));
     // SAFETY: ASCII
     unsafe { std::str::from_utf8_unchecked(&buf[..]) }
